@@ -1,6 +1,6 @@
 (* Correspondence evaluators for C20: model vs observation, and the property's own sentence
    evaluated on what the implementation returned. *)
-Require Export Gengo.Base.Bytes Gengo.Model.Inflector Gengo.Gen.InflectorTables Gengo.Model.InflectorApi.
+Require Export Gengo.Base.Bytes Gengo.Model.Inflector Gengo.Model.InflectorRegexp Gengo.Gen.InflectorTables Gengo.Model.InflectorApi.
 
 Record case := mk_case {
   c_plural : bool;             (* true: inflector.Pluralize, false: inflector.Singularize *)
@@ -20,15 +20,13 @@ Definition res_opt_eqb (r : res bytes) (o : option bytes) : bool :=
   | _, _ => false
   end.
 
-(* The suffix-rule engine is not modelled: the observed result stands in for it.  So on inputs that
-   reach the suffix rules only "returned, did not panic" is compared; on inputs that take the
-   irregular or the uninflected branch the model's full output is compared. *)
-Definition model_on (c : case) (s : bytes) (o : option bytes) : res bytes :=
-  api current_fixed (c_plural c) (fun x => match o with Some r => r | None => x end) s.
+(* The complete model (irregular table, uninflected list AND the ordered regexp suffix rules, all
+   extracted from the source on this run): the FULL result is compared on every case. *)
+Definition model_on (c : case) (s : bytes) : res bytes := api_full current_fixed (c_plural c) s.
 
 Definition mismatch (c : case) : bool :=
-  negb (res_opt_eqb (model_on c (c_pre c ++ c_word c) (c_full c)) (c_full c))
-  || negb (res_opt_eqb (model_on c (c_word c) (c_alone c)) (c_alone c)).
+  negb (res_opt_eqb (model_on c (c_pre c ++ c_word c)) (c_full c))
+  || negb (res_opt_eqb (model_on c (c_word c)) (c_alone c)).
 
 (* the property, as a predicate on the two observed results: both calls returned; if the last
    word is an irregular word of the table (in any ASCII case) and is preceded by a word boundary,
